@@ -36,6 +36,11 @@ CHECKS["C13"] = dict(
  note="Exhaustive within the stated alphabets for <= 2 saves (quick), 4 saves simulated (thorough). Trusted: h5py, the token encoding (self-checking: a dataset that does not decode is reported).",
  technique="TLA+ reference model of the store model-checked with TLC; every behaviour replayed on the real save_data/read_data with the disk decoded back to spec tokens",
  design_ref="DESIGN.md 4.2, 5/C13")
+CHECKS["C11"] = dict(
+ text="Chunks.tla models how Carpet splits a grid function (nested rectilinear decompositions, ghost width, chunk numbering orders) and TLC checks that the generator is a partition and enumerates the decompositions (tensor-product and per-slab cuts exhaustively, fully nested by simulation); ETSim.tla models restart sequences with overlapping iteration ranges, layouts and levels, with the reference semantics of a read (latest restart wins, sorted unique iterations, matching times). Every state is materialised as a CarpetIOHDF5-shaped directory whose values encode (variable, restart, iteration, level, x, y, z); the real join_chunks/fixij and read_data (4 layouts) are compared bit-for-bit with the spec's Truth.",
+ note="Grids 3x4x3 (quick) and 4x4x4 (thorough), ghost 1..3, <= 3-4 restarts. Same output stride in all restarts. A one-file-per-process layout with a single chunk is not generated (Carpet does not write it). Extra columns returned for the rest of a file group are accepted. Trusted: the generator (validated by the spec-level partition invariant and by the reader itself on all layouts), h5py.",
+ technique="TLA+ model of the simulation directory (decompositions, restarts) enumerated by TLC; every state materialised as HDF5 files and read with the real reader, compared bit-for-bit",
+ design_ref="DESIGN.md 4.3, 5/C11")
 
 NA = {
  "C17": "Closed-form transcendental solutions (sin, sinh, 2F1, t^(2/3)): no state, history or case analysis for a TLA+ specification to enumerate, and TLC has neither reals nor transcendental functions; a CAS/interval technique would be a different family (DESIGN.md section 6).",
